@@ -747,14 +747,14 @@ pub fn check_drops(w: &mut World) {
     let n = w.nodes.len();
     for i in 0..n {
         let node = &w.nodes[i];
-        if node.drops == 0 {
+        if node.drops == 0 && !node.untracked_drop {
             let m = format!("{} was never dropped (leaked)", w.path(i));
             let f = w.owner_family(i);
             w.violate_f(Oracle::D, f, m);
         }
     }
     for t in 0..w.toks.len() {
-        if w.toks[t].drops == 0 {
+        if w.toks[t].drops == 0 && !w.toks[t].untracked {
             let p = w.toks[t].producer.map(|n| w.path(n)).unwrap_or_else(|| "the harness".into());
             let f = w.tok_family(crate::val::handle_of(t));
             w.violate_f(Oracle::DV, f, format!("value t{} produced by {} was never dropped (leaked)", t, p));
